@@ -5,7 +5,7 @@
    jobs >= 1 and both settings of --stop-early. *)
 From Coq Require Import List Arith Bool NArith.
 From Conductor Require Import Model.Loader Model.Planner Model.Exec Model.RunCase
-  Proofs.ExecInv Proofs.ExecTheorems Proofs.ExecMain Proofs.PlannerInv Proofs.PlannerExact Proofs.ComposeExec.
+  Proofs.ExecInv Proofs.ExecTheorems Proofs.ExecMain Proofs.PlannerInv Proofs.PlannerExact Proofs.ComposeExec Proofs.ComposeStop.
 Import ListNotations.
 
 (* the final state of every operation is determined by the dependency graph and the oracle:
@@ -88,6 +88,18 @@ Theorem C03_task_level_end_to_end :
     (ost s o = SUCCEEDED \/ ost s o = FAILED \/ ost s o = SKIPPED).
 Proof. exact cond_run_task_classification. Qed.
 Print Assumptions C03_task_level_end_to_end.
+
+(* --stop-early, end to end on the event list of a complete `cond run` of the composed model: the first
+   failure that is observed (a launch failure or a non-zero exit) is the last thing that happens --
+   nothing is started after it, and no failure precedes it (the report, incl. the SIGTERM sweep of
+   C03_report, is all that follows) *)
+Theorem C03_stop_early_end_to_end :
+  forall fuel tasks c loaded ps evs,
+  cond_run fuel tasks c = ORun loaded ps (Some evs) -> 1 <= c_jobs c -> c_stop c = true ->
+  forall pre e post, evs = pre ++ e :: post -> is_failure e = true ->
+  (forall x sl, ~ In (EStart x sl) post) /\ (forall e', In e' pre -> is_failure e' = false).
+Proof. exact cond_run_stop_early. Qed.
+Print Assumptions C03_stop_early_end_to_end.
 
 (* non-vacuity: a well-formed two-operation plan (op 1 depends on op 0) whose first operation
    fails ends with op 0 FAILED, op 1 SKIPPED and a failure report *)
